@@ -110,6 +110,20 @@ fn check(plan: &Plan, out: &RunOut) -> CheckOut {
             _ => {}
         }
     }
+    // a request carrying this server's SRV (computed by the reference: sha2) is answered, provided
+    // the incarnation that received it stayed up for another half second
+    for q in &v.recvs {
+        if let Ok(info) = &q.class {
+            let has_srv = info.proto == r::Proto::Ietf && r::decode(&q.data[12..]).map(|(m, _)| m.has(r::SRV)).unwrap_or(false);
+            if has_srv && info.must == r::Must::Answer && q.answers.is_empty() {
+                let pr = &out.world.procs[q.proc];
+                let lived = pr.exit_at.map(|t| t > q.t + 500 * dsim::MS).unwrap_or(out.world.now > q.t + 500 * dsim::MS);
+                if lived {
+                    co.violate("C10", "identity_mismatch", "C10|correct_srv_unanswered".into(), format!("request #{} names this server (SRV = SHA-512(0xff || pk)[0..32]) and was not answered", q.dgram));
+                }
+            }
+        }
+    }
     // every certificate: right context verifies, other context does not; window contains midpoint
     let mut certs: std::collections::BTreeSet<(Vec<u8>, bool)> = Default::default();
     for s in &v.sends {
